@@ -78,6 +78,9 @@ type upH struct {
 	OpenOp    *Op
 
 	ReuseScratch bool // writes pass a scratch slice that is overwritten after the call returns
+	// HookDelay > 0: the application's hooks and event handlers take that long (simulated time), so
+	// that events pile up behind them
+	HookDelay time.Duration
 }
 
 // flushReturn is what the caller of Flush observes through State() right after Flush returned nil.
@@ -202,6 +205,13 @@ func (h *upH) HookBefore(id uuid.UUID, c iscp.UpstreamChunk) {
 	rec.At = s.Now()
 	h.Before = append(h.Before, rec)
 	s.mu.Unlock()
+	h.slowHook()
+}
+
+func (h *upH) slowHook() {
+	if h.HookDelay > 0 {
+		time.Sleep(h.HookDelay)
+	}
 }
 
 func (h *upH) HookAfter(id uuid.UUID, r iscp.UpstreamChunkResult) {
@@ -209,6 +219,7 @@ func (h *upH) HookAfter(id uuid.UUID, r iscp.UpstreamChunkResult) {
 	s.mu.Lock()
 	h.After = append(h.After, hookAfterRec{Seq: r.SequenceNumber, Code: r.ResultCode, At: s.Now()})
 	s.mu.Unlock()
+	h.slowHook()
 }
 
 func (h *upH) OnUpstreamClosed(ev *iscp.UpstreamClosedEvent) {
@@ -220,6 +231,7 @@ func (h *upH) OnUpstreamClosed(ev *iscp.UpstreamClosedEvent) {
 	}
 	h.ClosedEv = append(h.ClosedEv, e)
 	s.mu.Unlock()
+	h.slowHook()
 }
 
 func (h *upH) OnUpstreamResumed(ev *iscp.UpstreamResumedEvent) {
